@@ -92,6 +92,15 @@ def fraction_values(ctx, r, n, dens):
             # the localized string in the C locale is the same text
             if fv.GetLocalizedString() != s:
                 ctx.violation("localized-string-differs-in-C-locale", dict(case, text=s, localized=fv.GetLocalizedString()), replay=case)
+        # the fraction part on its own: the text after the number, or nothing for a zero fraction
+        ctx.ev()
+        try:
+            lf = fv.GetLocalizedFraction()
+            want_lf = "" if float(f) == 0.0 else str(f)
+            if lf != want_lf:
+                ctx.violation("GetLocalizedFraction-differs", dict(case, got=lf, expected=want_lf), replay=case)
+        except Exception as e:
+            ctx.violation("GetLocalizedFraction-raised:%s" % type(e).__name__, dict(case, error=str(e)[:120]), replay=case)
         # copy
         ctx.ev()
         c = copy.copy(fv)
